@@ -59,6 +59,17 @@ def gen_knobs(rng, prop, profile):
         keys.append({"scheme": scheme, "res": res, "comment": comment,
                      "pp": rng.random() < (0.35 if c19 else 0.25),
                      "val": rng.random() < (0.35 if c19 else 0.15)})
+    if len(keys) >= 2 and rng.random() < 0.12:
+        # a pair of uris whose texts differ only by the comment separator: "<res><<c1" and "<res>c1"
+        a = keys[0]
+        twin_res = a["res"] + "c1"
+        res_sizes[twin_res] = rng.choice([100, 300, 4097])
+        keys[0] = dict(a, comment="c1")
+        keys[1] = {"scheme": a["scheme"], "res": twin_res, "comment": "", "pp": a["pp"], "val": keys[1]["val"]}
+        if rng.random() < 0.5 and len(keys) >= 3:
+            keys[2] = dict(a, comment="")  # ... and the bare resource itself
+        seen = set()
+        keys = [k for k in keys if (k["scheme"], k["res"], k["comment"]) not in seen and not seen.add((k["scheme"], k["res"], k["comment"]))]
     sizes = sorted(res_sizes[k["res"]] + (4 if k["pp"] else 0) for k in keys)
     total = sum(sizes)
     cls = wchoice(rng, [(12, "tiny"), (30, "few"), (33, "half"), (25, "all")])
